@@ -10,6 +10,17 @@ BASE = ("cd /repo && env -u TRACKLIB_VERIF_TRACE /venv/bin/python -m pytest -ra 
 
 # pid -> (module(s), technique, level text, level note, design ref)
 CHECKS = {
+    "C15": ("KernelFilter", "TLA+ definition of the renormalised weighted mean with NaN skipping and boundary copy + transcription "
+            "of Filter.execute's temp/norm loop, checked by TLC together with the constant-signal and hull consequences; outputs "
+            "recorded from Operator.FILTER / filter_seq / Track.smooth and windows from Kernel.toSlidingWindow judged by "
+            "KernelFilterTrace.tla (code->spec)",
+            "TLC: loop = definition, constants fixed, outputs within the hull of their window for every signal of length 3..5 "
+            "(thorough 6) over {0,1,3,NaN} x every odd weight list over {1,2,5} up to length 5 x boundary flag. The real filter is "
+            "run on those signals and lists, on random constant / monotone / NaN-holed signals through features and x, y, z, "
+            "with integer kernels and with eight kernel classes (widths 1-5, both boundary flags): outputs must equal the "
+            "model's fraction exactly (rational windows) or within 0.02 and inside the hull (Gaussian, exponential, cubic, "
+            "spheric); every sliding window must be odd (2 floor(support) + 1), symmetric, non-negative and sum to 1.",
+            "TLC 1.8; integer signals; calls with a 0/0 index are not judged; transcendental windows only to 1e-4", "5/C15"),
     "C19": ("RasterGrid", "TLA+ model of the raster grid: closed cell footprints, aggregate definitions on non-NaN values, "
             "transcriptions of Raster.getCell and of the cell operators checked by TLC (pinned operators refuted); summarize() "
             "calls (assignment recovered through unique tags, six aggregate grids) and getCell calls recorded from the real "
